@@ -10,7 +10,12 @@
            | MM ncl (cn k m*k)* nw w* naux (inc none)* | XS nclusters | IN ok | IM cp0 nrounds (nb b*nb)*
         -> "OK exit over computed mpwp stops roots seen improve" | "REJECT"
            exit: resume|newton|checkdata|inclusion|float|dpe|early|loop|overmax|silent ; stops: latest first, e.g. 100 ;
-           roots/seen: st:inc:none,... ; improve: - or rounds:over:skipped *)
+           roots/seen: st:inc:none,... ; improve: - or rounds:over:skipped
+     G goal secular_input start crude avoid_mp max_pack pprec nonewton user nev ev*nev           (mps_secular_ga_mpsolve)
+        ev:  CD which_f err | ST err | FP b | ER b | SP exit n st*n | ND b | RG ok | XR b | IT fail best | VA n st*n
+           | IM cp0 nrounds (nb b*nb)* n roots
+        -> "OK exit why phase final" | "REJECT"     exit: errreturn|cleanuperrors|exitaftercopy|done ;
+           why: -|errors|crude|avoidmp|stop:<exit_required>:<phase>:<sts> ; final: - or statuses after mps_improve (rounds:over:skipped:sts) *)
 module BZ = Z
 open Stopq
 let rec pos_of_z (n : BZ.t) : positive =
@@ -19,7 +24,7 @@ let rec pos_of_z (n : BZ.t) : positive =
 let z_of_z (n : BZ.t) : z = if BZ.sign n = 0 then Z0 else if BZ.sign n > 0 then Zpos (pos_of_z n) else Zneg (pos_of_z (BZ.neg n))
 let rec bz_of_pos = function XH -> BZ.one | XO p -> BZ.shift_left (bz_of_pos p) 1 | XI p -> BZ.succ (BZ.shift_left (bz_of_pos p) 1)
 let bz_of_z = function Z0 -> BZ.zero | Zpos p -> bz_of_pos p | Zneg p -> BZ.neg (bz_of_pos p)
-let rec nat_of_int n = if n <= 0 then O else S (nat_of_int (n - 1))
+let rec nat_of_int n = if n <= 0 then O else if n > 1000000 then failwith "natural number too large" else S (nat_of_int (n - 1))
 let rec int_of_nat = function O -> 0 | S n -> 1 + int_of_nat n
 let b x = if x then "1" else "0"
 let goal_of = function "i" -> GIsolate | "a" -> GApproximate | "c" -> GCount | _ -> failwith "bad goal"
@@ -51,6 +56,23 @@ let nev () = match next () with
   | "IN" -> SvInclusion (nbool ())
   | "IM" -> let cp = nz () in let r = nrounds () in SvImprove (cp, r)
   | t -> failwith ("bad event " ^ t)
+let ngev () = match next () with
+  | "CD" -> let w = nbool () in let e = nbool () in GvCheckData (w, e)
+  | "ST" -> GvStart (nbool ())
+  | "FP" -> GvFpe (nbool ())
+  | "ER" -> GvErr (nbool ())
+  | "SP" -> let e = nbool () in let n = nint () in let s = rep n nnat in GvStop (e, s)
+  | "ND" -> GvNeedDpe (nbool ())
+  | "RG" -> GvRegen (nbool ())
+  | "XR" -> GvExitReq (nbool ())
+  | "IT" -> let f = nbool () in let b = nbool () in GvIter (f, b)
+  | "VA" -> let n = nint () in GvValidate (rep n nnat)
+  | "IM" -> let cp = nz () in let r = nrounds () in let rs = nroots () in GvImprove (cp, r, rs)
+  | t -> failwith ("bad event " ^ t)
+let phase_name = function NoPhase -> "0" | FloatPhase -> "1" | DpePhase -> "2" | MpPhase -> "3"
+let why_name = function
+  | WErrors -> "errors" | WCrude -> "crude" | WAvoidMp -> "avoidmp"
+  | WStop (e, ph, s) -> "stop:" ^ b e ^ ":" ^ phase_name ph ^ ":" ^ (if s = [] then "-" else sts s)
 let exit_name = function
   | XErrResume -> "resume" | XErrNewton -> "newton" | XErrCheckData -> "checkdata" | XErrInclusion -> "inclusion"
   | XDone HFloatStop -> "float" | XDone HDpeStop -> "dpe" | XDone HApproxEarly -> "early" | XDone HLoopComputed -> "loop"
@@ -87,6 +109,19 @@ let () =
                   print_endline (String.concat " " ["OK"; exit_name o.so_exit; b o.so_over_max; b o.so_computed; BZ.to_string (bz_of_z o.so_mpwp);
                     (if o.so_stops = [] then "-" else String.concat "" (List.map b o.so_stops)); roots o.so_roots; roots o.so_seen;
                     (match o.so_improve with None -> "-" | Some io -> Printf.sprintf "%d:%s:%s" (int_of_nat io.io_rounds) (b io.io_over) (b io.io_skipped))]))
+      | "G" -> let g = goal_of (next ()) in let si = nbool () in let st = phase_of (nint ()) in let cr = nbool () in let av = nbool () in
+               let mp = nz () in let pp = nz () in let nn = nbool () in let us = nbool () in
+               let n = nint () in let evs = rep n ngev in
+               let cfg = { g_goal = g; g_secular_input = si; g_start = st; g_crude = cr; g_avoid_mp = av; g_max_pack = mp; g_pprec = pp;
+                           g_nonewton = nn; g_user = us } in
+               (match sec_run cfg evs with
+                | None -> print_endline "REJECT"
+                | Some o ->
+                  let (e, w, im) = (match o.go_exit with
+                    | GErrReturn -> ("errreturn", "-", None) | GCleanupErrors -> ("cleanuperrors", "-", None)
+                    | GExitAfterCopy w -> ("exitaftercopy", why_name w, None) | GDone (w, im) -> ("done", why_name w, im)) in
+                  print_endline (String.concat " " ["OK"; e; w; phase_name o.go_phase;
+                    (match im with None -> "-" | Some io -> Printf.sprintf "%d:%s:%s:%s" (int_of_nat io.io_rounds) (b io.io_over) (b io.io_skipped) (sts io.io_sts))]))
       | _ -> print_endline "BADLINE")
-    with Failure m -> print_endline ("BADLINE " ^ m) | Invalid_argument m -> print_endline ("BADLINE " ^ m))
+    with Failure m -> print_endline ("BADLINE " ^ m) | Invalid_argument m -> print_endline ("BADLINE " ^ m) | Stack_overflow -> print_endline "BADLINE stack overflow")
   done with End_of_file -> ()
